@@ -203,11 +203,19 @@ func (in *inst) pkgFunc(c *ast.CallExpr) (string, string) {
 var fsFuncs = map[string]map[string]string{
 	"os": {
 		"ReadFile": "FSReadFile", "WriteFile": "FSWriteFile", "Mkdir": "FSMkdir", "MkdirAll": "FSMkdirAll",
-		"ReadDir": "FSReadDir", "Remove": "FSRemove", "RemoveAll": "FSRemoveAll", "Stat": "FSStat", "Lstat": "FSStat",
+		"ReadDir": "FSReadDir", "Remove": "FSRemove", "RemoveAll": "FSRemoveAll", "Stat": "FSStat", "Lstat": "FSLstat",
+		"Symlink": "FSSymlink", "Readlink": "FSReadlink",
 		"Create": "FSCreate", "Open": "FSOpen", "OpenFile": "FSOpenFile", "Rename": "FSRename",
 	},
-	"path/filepath": {"Walk": "FSWalk", "WalkDir": "FSWalkDir"},
+	"path/filepath": {"Walk": "FSWalk", "WalkDir": "FSWalkDir", "EvalSymlinks": "FSEvalSymlinks"},
 	"io/ioutil":     {"ReadFile": "FSReadFile", "WriteFile": "FSWriteFile", "ReadDir": "FSReadDirInfo"},
+}
+
+// file-system calls that would bypass the simulated disk: refuse to build rather than miss them
+var fsUnsupported = map[string]map[string]bool{
+	"os":            {"Chmod": true, "Chown": true, "Lchown": true, "Chtimes": true, "Truncate": true, "Link": true, "CopyFS": true, "MkdirTemp": true, "CreateTemp": true, "DirFS": true, "OpenRoot": true, "OpenInRoot": true, "SameFile": true},
+	"path/filepath": {"Glob": true},
+	"io/ioutil":     {"TempFile": true, "TempDir": true},
 }
 
 var randPkgs = map[string]bool{"pgregory.net/rand": true, "math/rand": true, "math/rand/v2": true}
@@ -226,6 +234,9 @@ func (in *inst) rewriteCall(c *ast.CallExpr) ast.Expr {
 		case in.rules.NumCPU && path == "runtime" && name == "NumCPU":
 			in.stat("numcpu")
 			return vcall("NumCPU")
+		case in.rules.NumCPU && path == "runtime" && name == "GOMAXPROCS":
+			in.stat("gomaxprocs")
+			return vcall("GOMAXPROCS", c.Args...)
 		case in.rules.Conc && path == "time" && name == "AfterFunc":
 			in.stat("afterfunc")
 			return vcall("AfterFunc", c.Args...)
@@ -243,6 +254,9 @@ func (in *inst) rewriteCall(c *ast.CallExpr) ast.Expr {
 					in.stat("fs." + name)
 					return vcall(v, c.Args...)
 				}
+			}
+			if fsUnsupported[path][name] {
+				in.unhandled(c, "file-system call without a simulated counterpart: "+path+"."+name)
 			}
 		}
 		return nil
